@@ -58,7 +58,7 @@ package sbom
 //@   inline
 //@   assigns \nothing
 //@   owns
-//@   invariant L0: forall e *Edge :: (e in elems(edgeCopy)) ==> e != nil && fresh(e) && allocated(e) && allocated(arr(e.To)) && (arr(e.To) == nil || fresh(arr(e.To)))
+//@   invariant L0: [C08:idx] forall e *Edge :: (e in elems(edgeCopy)) ==> e != nil && fresh(e) && allocated(e) && allocated(arr(e.To)) && (arr(e.To) == nil || fresh(arr(e.To)))
 
 //@ func copyNodeSlice
 //@   props C11, C12
@@ -77,28 +77,28 @@ package sbom
 //@   ensures [C09:union:roots] forall r string :: (r in elems(result.RootElements)) <==> ((r in elems(nl.RootElements)) || (r in elems(nl2.RootElements)))
 //@   ensures [C08:union:rootsClosed] closedRoots(nl) && closedRoots(nl2) ==> closedRoots(result)
 //@   ensures [C08:union:edgesClosed] closedEdges(result)
-//@   invariant L0: allocated(arr(ret.RootElements)) && (forall e *Edge :: (e in elems(ret.Edges)) ==> fresh(e) && allocated(e) && (arr(e.To) == nil || (fresh(arr(e.To)) && arr(e.To) != arr(ret.RootElements))))
-//@   invariant L0: forall r string :: (r in elems(ret.RootElements)) <==> (r in elems(nl.RootElements))
-//@   invariant L1: allocated(arr(ret.RootElements)) && (forall e *Edge :: (e in elems(ret.Edges)) ==> fresh(e) && allocated(e) && (arr(e.To) == nil || (fresh(arr(e.To)) && arr(e.To) != arr(ret.RootElements))))
-//@   invariant L1: forall r string :: (r in elems(ret.RootElements)) <==> (r in elems(nl.RootElements))
-//@   invariant L2: allocated(arr(ret.RootElements)) && (forall e *Edge :: (e in elems(ret.Edges)) ==> fresh(e) && allocated(e) && (arr(e.To) == nil || (fresh(arr(e.To)) && arr(e.To) != arr(ret.RootElements))))
-//@   invariant L2: forall r string :: (r in elems(ret.RootElements)) <==> (r in elems(nl.RootElements))
-//@   invariant L3: allocated(arr(ret.RootElements)) && (forall e *Edge :: (e in elems(ret.Edges)) ==> fresh(e) && allocated(e) && (arr(e.To) == nil || (fresh(arr(e.To)) && arr(e.To) != arr(ret.RootElements))))
-//@   invariant L3: forall r string :: (r in elems(ret.RootElements)) <==> (r in elems(nl.RootElements))
-//@   invariant L3: (existingEdge in elems(ret.Edges))
-//@   invariant L4: forall r string :: (r in elems(ret.RootElements)) <==> ((r in elems(nl.RootElements)) || (r in elemsn(nl2.RootElements, _i)))
-//@   invariant L4: forall k string :: (k in rootNodes) ==> (k in elems(nl.RootElements))
+//@   invariant L0: [C09:inv] allocated(arr(ret.RootElements)) && (forall e *Edge :: (e in elems(ret.Edges)) ==> fresh(e) && allocated(e) && (arr(e.To) == nil || (fresh(arr(e.To)) && arr(e.To) != arr(ret.RootElements))))
+//@   invariant L0: [C09:inv] forall r string :: (r in elems(ret.RootElements)) <==> (r in elems(nl.RootElements))
+//@   invariant L1: [C09:inv] allocated(arr(ret.RootElements)) && (forall e *Edge :: (e in elems(ret.Edges)) ==> fresh(e) && allocated(e) && (arr(e.To) == nil || (fresh(arr(e.To)) && arr(e.To) != arr(ret.RootElements))))
+//@   invariant L1: [C09:inv] forall r string :: (r in elems(ret.RootElements)) <==> (r in elems(nl.RootElements))
+//@   invariant L2: [C09:inv] allocated(arr(ret.RootElements)) && (forall e *Edge :: (e in elems(ret.Edges)) ==> fresh(e) && allocated(e) && (arr(e.To) == nil || (fresh(arr(e.To)) && arr(e.To) != arr(ret.RootElements))))
+//@   invariant L2: [C09:inv] forall r string :: (r in elems(ret.RootElements)) <==> (r in elems(nl.RootElements))
+//@   invariant L3: [C09:inv] allocated(arr(ret.RootElements)) && (forall e *Edge :: (e in elems(ret.Edges)) ==> fresh(e) && allocated(e) && (arr(e.To) == nil || (fresh(arr(e.To)) && arr(e.To) != arr(ret.RootElements))))
+//@   invariant L3: [C09:inv] forall r string :: (r in elems(ret.RootElements)) <==> (r in elems(nl.RootElements))
+//@   invariant L3: [C09:inv] (existingEdge in elems(ret.Edges))
+//@   invariant L4: [C09:inv] forall r string :: (r in elems(ret.RootElements)) <==> ((r in elems(nl.RootElements)) || (r in elemsn(nl2.RootElements, _i)))
+//@   invariant L4: [C09:inv] forall k string :: (k in rootNodes) ==> (k in elems(nl.RootElements))
 //@   ensures [C08:union:normalised] normalisedNL(result)
-//@   invariant L0: !(nil in elems(ret.Nodes)) && !(nil in elems(ret.Edges)) && (forall p *Node :: (p in elems(ret.Nodes)) ==> fresh(p))
-//@   invariant L0: (forall x string :: (x in fieldset(ret.Nodes, Id)) <==> (x in fieldsetn(nl.Nodes, Id, _i)))
-//@   invariant L1: !(nil in elems(ret.Nodes)) && !(nil in elems(ret.Edges)) && (forall p *Node :: (p in elems(ret.Nodes)) ==> fresh(p))
-//@   invariant L1: (forall x string :: (x in fieldset(ret.Nodes, Id)) <==> ((x in fieldset(nl.Nodes, Id)) || (x in fieldsetn(nl2.Nodes, Id, _i))))
-//@   invariant L1: forall k string :: (k in nodeindex) ==> (k in fieldset(nl.Nodes, Id))
-//@   invariant L1: nodeindex != nil && fresh(nodeindex) && (forall k string :: (k in nodeindex) ==> nodeindex[k] != nil && fresh(nodeindex[k]) && nodeindex[k].Id == k && (nodeindex[k] in elems(ret.Nodes)))
-//@   invariant L2: !(nil in elems(ret.Edges))
-//@   invariant L3: !(nil in elems(ret.Edges)) && existingEdge != nil
-//@   invariant L4: validNL(ret) && closedEdges(ret) && normalisedNL(ret)
-//@   invariant L4: (forall e *Edge :: (e in elems(ret.Edges)) ==> arr(e.To) != arr(ret.RootElements) || arr(e.To) == nil)
+//@   invariant L0: [C09:inv] !(nil in elems(ret.Nodes)) && !(nil in elems(ret.Edges)) && (forall p *Node :: (p in elems(ret.Nodes)) ==> fresh(p))
+//@   invariant L0: [C09:inv] (forall x string :: (x in fieldset(ret.Nodes, Id)) <==> (x in fieldsetn(nl.Nodes, Id, _i)))
+//@   invariant L1: [C09:inv] !(nil in elems(ret.Nodes)) && !(nil in elems(ret.Edges)) && (forall p *Node :: (p in elems(ret.Nodes)) ==> fresh(p))
+//@   invariant L1: [C09:inv] (forall x string :: (x in fieldset(ret.Nodes, Id)) <==> ((x in fieldset(nl.Nodes, Id)) || (x in fieldsetn(nl2.Nodes, Id, _i))))
+//@   invariant L1: [C09:inv] forall k string :: (k in nodeindex) ==> (k in fieldset(nl.Nodes, Id))
+//@   invariant L1: [C09:inv] nodeindex != nil && fresh(nodeindex) && (forall k string :: (k in nodeindex) ==> nodeindex[k] != nil && fresh(nodeindex[k]) && nodeindex[k].Id == k && (nodeindex[k] in elems(ret.Nodes)))
+//@   invariant L2: [C09:inv] !(nil in elems(ret.Edges))
+//@   invariant L3: [C09:inv] !(nil in elems(ret.Edges)) && existingEdge != nil
+//@   invariant L4: [C09:inv] validNL(ret) && closedEdges(ret) && normalisedNL(ret)
+//@   invariant L4: [C09:inv] (forall e *Edge :: (e in elems(ret.Edges)) ==> arr(e.To) != arr(ret.RootElements) || arr(e.To) == nil)
 
 //@ func NodeList.Intersect
 //@   props C11, C12, C08, C10
@@ -113,23 +113,23 @@ package sbom
 //@   ensures [C08:intersect:rootsClosed] closedRoots(result)
 //@   ensures [C08:intersect:edgesClosed] closedEdges(result)
 //@   ensures [C08:intersect:normalised] normalisedNL(result)
-//@   invariant L0: !(nil in elems(ret.Nodes)) && !(nil in elems(ret.Edges)) && (forall p *Node :: (p in elems(ret.Nodes)) ==> fresh(p))
-//@   invariant L0: (forall k string :: (k in ni1) <==> (k in fieldset(nl.Nodes, Id))) && (forall k string :: (k in ni2) <==> (k in fieldset(nl2.Nodes, Id))) && (forall k string :: (k in ni1) ==> ni1[k] != nil && ni1[k].Id == k) && (forall k string :: (k in ni2) ==> ni2[k] != nil && ni2[k].Id == k)
-//@   invariant L0: forall k string :: (k in _V) ==> (k in ni1)
-//@   invariant L0: (forall k string :: (k in rootElements) <==> (k in elems(nl.RootElements))) && (forall k string :: (k in rootElements2) <==> (k in elems(nl2.RootElements)))
-//@   invariant L0: (forall x string :: (x in fieldset(ret.Nodes, Id)) <==> ((x in _V) && (x in ni2)))
-//@   invariant L0: (forall r string :: (r in elems(ret.RootElements)) <==> ((r in _V) && (r in ni2) && ((r in rootElements) || (r in rootElements2))))
-//@   invariant L0: (forall i int, j int :: 0 <= i && i < j && j < len(ret.Nodes) ==> ret.Nodes[i].Id != ret.Nodes[j].Id) && (forall i int :: 0 <= i && i < len(ret.Nodes) ==> (ret.Nodes[i].Id in _V))
-//@   invariant L0: allocated(arr(ret.RootElements)) && (forall e *Edge :: (e in elems(ret.Edges)) ==> fresh(e) && allocated(e) && (arr(e.To) == nil || (fresh(arr(e.To)) && arr(e.To) != arr(ret.RootElements))))
-//@   invariant L1: !(nil in elems(ret.Edges))
-//@   invariant L1: allocated(arr(ret.RootElements)) && (forall e *Edge :: (e in elems(ret.Edges)) ==> fresh(e) && allocated(e) && (arr(e.To) == nil || (fresh(arr(e.To)) && arr(e.To) != arr(ret.RootElements))))
-//@   invariant L1: (forall r string :: (r in elems(ret.RootElements)) <==> ((r in fieldset(ret.Nodes, Id)) && ((r in elems(nl.RootElements)) || (r in elems(nl2.RootElements)))))
-//@   invariant L2: !(nil in elems(ret.Edges)) && existingEdge != nil && (existingEdge in elems(ret.Edges))
-//@   invariant L2: allocated(arr(ret.RootElements)) && (forall e *Edge :: (e in elems(ret.Edges)) ==> fresh(e) && allocated(e) && (arr(e.To) == nil || (fresh(arr(e.To)) && arr(e.To) != arr(ret.RootElements))))
-//@   invariant L2: (forall r string :: (r in elems(ret.RootElements)) <==> ((r in fieldset(ret.Nodes, Id)) && ((r in elems(nl.RootElements)) || (r in elems(nl2.RootElements)))))
-//@   invariant L3: !(nil in elems(ret.Edges)) && existingEdge != nil && (existingEdge in elems(ret.Edges)) && invDict != nil
-//@   invariant L3: allocated(arr(ret.RootElements)) && (forall e *Edge :: (e in elems(ret.Edges)) ==> fresh(e) && allocated(e) && (arr(e.To) == nil || (fresh(arr(e.To)) && arr(e.To) != arr(ret.RootElements))))
-//@   invariant L3: (forall r string :: (r in elems(ret.RootElements)) <==> ((r in fieldset(ret.Nodes, Id)) && ((r in elems(nl.RootElements)) || (r in elems(nl2.RootElements)))))
+//@   invariant L0: [C10:inv] !(nil in elems(ret.Nodes)) && !(nil in elems(ret.Edges)) && (forall p *Node :: (p in elems(ret.Nodes)) ==> fresh(p))
+//@   invariant L0: [C10:inv] (forall k string :: (k in ni1) <==> (k in fieldset(nl.Nodes, Id))) && (forall k string :: (k in ni2) <==> (k in fieldset(nl2.Nodes, Id))) && (forall k string :: (k in ni1) ==> ni1[k] != nil && ni1[k].Id == k) && (forall k string :: (k in ni2) ==> ni2[k] != nil && ni2[k].Id == k)
+//@   invariant L0: [C10:inv] forall k string :: (k in _V) ==> (k in ni1)
+//@   invariant L0: [C10:inv] (forall k string :: (k in rootElements) <==> (k in elems(nl.RootElements))) && (forall k string :: (k in rootElements2) <==> (k in elems(nl2.RootElements)))
+//@   invariant L0: [C10:inv] (forall x string :: (x in fieldset(ret.Nodes, Id)) <==> ((x in _V) && (x in ni2)))
+//@   invariant L0: [C10:inv] (forall r string :: (r in elems(ret.RootElements)) <==> ((r in _V) && (r in ni2) && ((r in rootElements) || (r in rootElements2))))
+//@   invariant L0: [C10:inv] (forall i int, j int :: 0 <= i && i < j && j < len(ret.Nodes) ==> ret.Nodes[i].Id != ret.Nodes[j].Id) && (forall i int :: 0 <= i && i < len(ret.Nodes) ==> (ret.Nodes[i].Id in _V))
+//@   invariant L0: [C10:inv] allocated(arr(ret.RootElements)) && (forall e *Edge :: (e in elems(ret.Edges)) ==> fresh(e) && allocated(e) && (arr(e.To) == nil || (fresh(arr(e.To)) && arr(e.To) != arr(ret.RootElements))))
+//@   invariant L1: [C10:inv] !(nil in elems(ret.Edges))
+//@   invariant L1: [C10:inv] allocated(arr(ret.RootElements)) && (forall e *Edge :: (e in elems(ret.Edges)) ==> fresh(e) && allocated(e) && (arr(e.To) == nil || (fresh(arr(e.To)) && arr(e.To) != arr(ret.RootElements))))
+//@   invariant L1: [C10:inv] (forall r string :: (r in elems(ret.RootElements)) <==> ((r in fieldset(ret.Nodes, Id)) && ((r in elems(nl.RootElements)) || (r in elems(nl2.RootElements)))))
+//@   invariant L2: [C10:inv] !(nil in elems(ret.Edges)) && existingEdge != nil && (existingEdge in elems(ret.Edges))
+//@   invariant L2: [C10:inv] allocated(arr(ret.RootElements)) && (forall e *Edge :: (e in elems(ret.Edges)) ==> fresh(e) && allocated(e) && (arr(e.To) == nil || (fresh(arr(e.To)) && arr(e.To) != arr(ret.RootElements))))
+//@   invariant L2: [C10:inv] (forall r string :: (r in elems(ret.RootElements)) <==> ((r in fieldset(ret.Nodes, Id)) && ((r in elems(nl.RootElements)) || (r in elems(nl2.RootElements)))))
+//@   invariant L3: [C10:inv] !(nil in elems(ret.Edges)) && existingEdge != nil && (existingEdge in elems(ret.Edges)) && invDict != nil
+//@   invariant L3: [C10:inv] allocated(arr(ret.RootElements)) && (forall e *Edge :: (e in elems(ret.Edges)) ==> fresh(e) && allocated(e) && (arr(e.To) == nil || (fresh(arr(e.To)) && arr(e.To) != arr(ret.RootElements))))
+//@   invariant L3: [C10:inv] (forall r string :: (r in elems(ret.RootElements)) <==> ((r in fieldset(ret.Nodes, Id)) && ((r in elems(nl.RootElements)) || (r in elems(nl2.RootElements)))))
 
 // ---- comparing, hashing, flattening ----
 
@@ -267,9 +267,9 @@ package sbom
 //@   inline
 //@   assigns \nothing
 //@   ensures [C08:indexNodes:keys] result != nil && fresh(result) && (forall k string :: (k in result) <==> (k in fieldset(nl.Nodes, Id)))
-//@   invariant L0: ret != nil && fresh(ret) && (forall k string :: (k in ret) <==> (k in fieldsetn(nl.Nodes, Id, _i)))
-//@   invariant L0: forall k string :: (k in ret) ==> ret[k] != nil && ret[k].Id == k && (ret[k] in elemsn(nl.Nodes, _i))
-//@   invariant L0: uniqueIdx(nl) ==> (forall i0 int :: 0 <= i0 && i0 < _i ==> (nl.Nodes[i0].Id in ret) && ret[nl.Nodes[i0].Id] == nl.Nodes[i0])
+//@   invariant L0: [C08:idx] ret != nil && fresh(ret) && (forall k string :: (k in ret) <==> (k in fieldsetn(nl.Nodes, Id, _i)))
+//@   invariant L0: [C08:idx] forall k string :: (k in ret) ==> ret[k] != nil && ret[k].Id == k && (ret[k] in elemsn(nl.Nodes, _i))
+//@   invariant L0: [C08:idx] uniqueIdx(nl) ==> (forall i0 int :: 0 <= i0 && i0 < _i ==> (nl.Nodes[i0].Id in ret) && ret[nl.Nodes[i0].Id] == nl.Nodes[i0])
 //@   ensures [C08:indexNodes:byIndex] uniqueIdx(nl) ==> (forall i0 int :: 0 <= i0 && i0 < len(nl.Nodes) ==> (nl.Nodes[i0].Id in result) && result[nl.Nodes[i0].Id] == nl.Nodes[i0])
 //@   ensures [C08:indexNodes:values] forall k string :: (k in result) ==> result[k] != nil && result[k].Id == k && (result[k] in elems(nl.Nodes))
 
@@ -289,7 +289,7 @@ package sbom
 //@   inline
 //@   assigns \nothing
 //@   ensures [C08:indexRoots:keys] result != nil && fresh(result) && (forall k string :: (k in result) <==> (k in elems(nl.RootElements)))
-//@   invariant L0: index != nil && fresh(index) && (forall k string :: (k in index) <==> (k in elemsn(nl.RootElements, _i)))
+//@   invariant L0: [C08:idx] index != nil && fresh(index) && (forall k string :: (k in index) <==> (k in elemsn(nl.RootElements, _i)))
 
 //@ func NodeList.indexNodesByHash
 //@   props C11
@@ -466,39 +466,39 @@ package sbom
 //@   ensures [C08:cleanEdges:others] nl.Nodes == old(nl.Nodes) && nl.RootElements == old(nl.RootElements)
 //@   ensures [C08:cleanEdges:closedFrom] forall e *Edge :: (e in elems(nl.Edges)) ==> (e.From in fieldset(nl.Nodes, Id)) && len(e.To) > 0
 //@   ensures [C08:cleanEdges:oneEdgePerSourceAndType] forall i int, j int :: 0 <= i && i < j && j < len(nl.Edges) ==> !(nl.Edges[i].From == nl.Edges[j].From && nl.Edges[i].Type == nl.Edges[j].Type)
-//@   invariant L0: (forall k string :: (k in seenCache) ==> k == (seenCache[k].From + "+++" + Edge_Type.String(seenCache[k].Type)))
-//@   invariant L1: (forall k string :: (k in seenCache) ==> k == (seenCache[k].From + "+++" + Edge_Type.String(seenCache[k].Type)))
-//@   invariant L2: (forall k string :: (k in seenCache) ==> k == (seenCache[k].From + "+++" + Edge_Type.String(seenCache[k].Type)))
-//@   invariant L3: (forall k string :: (k in seenCache) ==> k == (seenCache[k].From + "+++" + Edge_Type.String(seenCache[k].Type)))
-//@   invariant L2: forall i int :: 0 <= i && i < len(newEdges) ==> ((newEdges[i].From + "+++" + Edge_Type.String(newEdges[i].Type)) in _V)
-//@   invariant L2: forall i int, j int :: 0 <= i && i < j && j < len(newEdges) ==> (newEdges[i].From + "+++" + Edge_Type.String(newEdges[i].Type)) != (newEdges[j].From + "+++" + Edge_Type.String(newEdges[j].Type))
-//@   invariant L3: forall i int :: 0 <= i && i < len(newEdges) ==> ((newEdges[i].From + "+++" + Edge_Type.String(newEdges[i].Type)) in _V1) && (newEdges[i].From + "+++" + Edge_Type.String(newEdges[i].Type)) != f
-//@   invariant L3: forall i int, j int :: 0 <= i && i < j && j < len(newEdges) ==> (newEdges[i].From + "+++" + Edge_Type.String(newEdges[i].Type)) != (newEdges[j].From + "+++" + Edge_Type.String(newEdges[j].Type))
+//@   invariant L0: [C08:inv] (forall k string :: (k in seenCache) ==> k == (seenCache[k].From + "+++" + Edge_Type.String(seenCache[k].Type)))
+//@   invariant L1: [C08:inv] (forall k string :: (k in seenCache) ==> k == (seenCache[k].From + "+++" + Edge_Type.String(seenCache[k].Type)))
+//@   invariant L2: [C08:inv] (forall k string :: (k in seenCache) ==> k == (seenCache[k].From + "+++" + Edge_Type.String(seenCache[k].Type)))
+//@   invariant L3: [C08:inv] (forall k string :: (k in seenCache) ==> k == (seenCache[k].From + "+++" + Edge_Type.String(seenCache[k].Type)))
+//@   invariant L2: [C08:inv] forall i int :: 0 <= i && i < len(newEdges) ==> ((newEdges[i].From + "+++" + Edge_Type.String(newEdges[i].Type)) in _V)
+//@   invariant L2: [C08:inv] forall i int, j int :: 0 <= i && i < j && j < len(newEdges) ==> (newEdges[i].From + "+++" + Edge_Type.String(newEdges[i].Type)) != (newEdges[j].From + "+++" + Edge_Type.String(newEdges[j].Type))
+//@   invariant L3: [C08:inv] forall i int :: 0 <= i && i < len(newEdges) ==> ((newEdges[i].From + "+++" + Edge_Type.String(newEdges[i].Type)) in _V1) && (newEdges[i].From + "+++" + Edge_Type.String(newEdges[i].Type)) != f
+//@   invariant L3: [C08:inv] forall i int, j int :: 0 <= i && i < j && j < len(newEdges) ==> (newEdges[i].From + "+++" + Edge_Type.String(newEdges[i].Type)) != (newEdges[j].From + "+++" + Edge_Type.String(newEdges[j].Type))
 //@   ensures [C08:cleanEdges:noRepeatedTargets] forall i int :: 0 <= i && i < len(nl.Edges) ==> (forall a int, b int :: 0 <= a && a < b && b < len(nl.Edges[i].To) ==> nl.Edges[i].To[a] != nl.Edges[i].To[b])
-//@   invariant L0: (forall k1 string, k2 string :: (k1 in seenCache) && (k2 in seenCache) && k1 != k2 ==> arr(seenCache[k1].To) != arr(seenCache[k2].To))
-//@   invariant L1: (forall k1 string, k2 string :: (k1 in seenCache) && (k2 in seenCache) && k1 != k2 ==> arr(seenCache[k1].To) != arr(seenCache[k2].To))
-//@   invariant L2: (forall k1 string, k2 string :: (k1 in seenCache) && (k2 in seenCache) && k1 != k2 ==> arr(seenCache[k1].To) != arr(seenCache[k2].To))
-//@   invariant L3: (forall k1 string, k2 string :: (k1 in seenCache) && (k2 in seenCache) && k1 != k2 ==> arr(seenCache[k1].To) != arr(seenCache[k2].To))
-//@   invariant L2: (forall i int :: 0 <= i && i < len(newEdges) ==> ((newEdges[i].From + "+++" + Edge_Type.String(newEdges[i].Type)) in seenCache) && seenCache[(newEdges[i].From + "+++" + Edge_Type.String(newEdges[i].Type))] == newEdges[i])
-//@   invariant L3: (forall i int :: 0 <= i && i < len(newEdges) ==> ((newEdges[i].From + "+++" + Edge_Type.String(newEdges[i].Type)) in seenCache) && seenCache[(newEdges[i].From + "+++" + Edge_Type.String(newEdges[i].Type))] == newEdges[i])
-//@   invariant L2: forall k string :: (k in seenCache) && !(k in _V) ==> len(seenCache[k].To) == 0
-//@   invariant L2: forall k string :: (k in seenCache) && (k in _V) ==> (forall a int, b int :: 0 <= a && a < b && b < len(seenCache[k].To) ==> seenCache[k].To[a] != seenCache[k].To[b])
-//@   invariant L3: forall k string :: (k in seenCache) && !(k in _V1) ==> len(seenCache[k].To) == 0
-//@   invariant L3: forall k string :: (k in seenCache) && (k in _V1) && k != f ==> (forall a int, b int :: 0 <= a && a < b && b < len(seenCache[k].To) ==> seenCache[k].To[a] != seenCache[k].To[b])
-//@   invariant L3: (f in seenCache) && (forall j int :: 0 <= j && j < len(seenCache[f].To) ==> (seenCache[f].To[j] in _V)) && (forall a int, b int :: 0 <= a && a < b && b < len(seenCache[f].To) ==> seenCache[f].To[a] != seenCache[f].To[b])
+//@   invariant L0: [C08:inv] (forall k1 string, k2 string :: (k1 in seenCache) && (k2 in seenCache) && k1 != k2 ==> arr(seenCache[k1].To) != arr(seenCache[k2].To))
+//@   invariant L1: [C08:inv] (forall k1 string, k2 string :: (k1 in seenCache) && (k2 in seenCache) && k1 != k2 ==> arr(seenCache[k1].To) != arr(seenCache[k2].To))
+//@   invariant L2: [C08:inv] (forall k1 string, k2 string :: (k1 in seenCache) && (k2 in seenCache) && k1 != k2 ==> arr(seenCache[k1].To) != arr(seenCache[k2].To))
+//@   invariant L3: [C08:inv] (forall k1 string, k2 string :: (k1 in seenCache) && (k2 in seenCache) && k1 != k2 ==> arr(seenCache[k1].To) != arr(seenCache[k2].To))
+//@   invariant L2: [C08:inv] (forall i int :: 0 <= i && i < len(newEdges) ==> ((newEdges[i].From + "+++" + Edge_Type.String(newEdges[i].Type)) in seenCache) && seenCache[(newEdges[i].From + "+++" + Edge_Type.String(newEdges[i].Type))] == newEdges[i])
+//@   invariant L3: [C08:inv] (forall i int :: 0 <= i && i < len(newEdges) ==> ((newEdges[i].From + "+++" + Edge_Type.String(newEdges[i].Type)) in seenCache) && seenCache[(newEdges[i].From + "+++" + Edge_Type.String(newEdges[i].Type))] == newEdges[i])
+//@   invariant L2: [C08:inv] forall k string :: (k in seenCache) && !(k in _V) ==> len(seenCache[k].To) == 0
+//@   invariant L2: [C08:inv] forall k string :: (k in seenCache) && (k in _V) ==> (forall a int, b int :: 0 <= a && a < b && b < len(seenCache[k].To) ==> seenCache[k].To[a] != seenCache[k].To[b])
+//@   invariant L3: [C08:inv] forall k string :: (k in seenCache) && !(k in _V1) ==> len(seenCache[k].To) == 0
+//@   invariant L3: [C08:inv] forall k string :: (k in seenCache) && (k in _V1) && k != f ==> (forall a int, b int :: 0 <= a && a < b && b < len(seenCache[k].To) ==> seenCache[k].To[a] != seenCache[k].To[b])
+//@   invariant L3: [C08:inv] (f in seenCache) && (forall j int :: 0 <= j && j < len(seenCache[f].To) ==> (seenCache[f].To[j] in _V)) && (forall a int, b int :: 0 <= a && a < b && b < len(seenCache[f].To) ==> seenCache[f].To[a] != seenCache[f].To[b])
 //@   ensures [C08:cleanEdges:closedTo] forall e *Edge :: (e in elems(nl.Edges)) ==> (forall j int :: 0 <= j && j < len(e.To) ==> (e.To[j] in fieldset(nl.Nodes, Id)))
-//@   invariant L0: (forall k string :: (k in seenCache) ==> len(seenCache[k].To) == 0) && (forall k string, s string :: (k in newTos) && (s in newTos[k]) ==> (s in fieldset(nl.Nodes, Id)))
-//@   invariant L1: (forall k string :: (k in seenCache) ==> len(seenCache[k].To) == 0) && (forall k string, s string :: (k in newTos) && (s in newTos[k]) ==> (s in fieldset(nl.Nodes, Id)))
-//@   invariant L2: (forall k string, s string :: (k in newTos) && (s in newTos[k]) ==> (s in fieldset(nl.Nodes, Id)))
-//@   invariant L2: forall k string :: (k in seenCache) ==> (forall j int :: 0 <= j && j < len(seenCache[k].To) ==> (seenCache[k].To[j] in fieldset(nl.Nodes, Id)))
-//@   invariant L2: forall e *Edge :: (e in elems(newEdges)) ==> (forall j int :: 0 <= j && j < len(e.To) ==> (e.To[j] in fieldset(nl.Nodes, Id)))
-//@   invariant L3: (forall k string, s string :: (k in newTos) && (s in newTos[k]) ==> (s in fieldset(nl.Nodes, Id)))
-//@   invariant L3: forall k string :: (k in seenCache) ==> (forall j int :: 0 <= j && j < len(seenCache[k].To) ==> (seenCache[k].To[j] in fieldset(nl.Nodes, Id)))
-//@   invariant L3: forall e *Edge :: (e in elems(newEdges)) ==> (forall j int :: 0 <= j && j < len(e.To) ==> (e.To[j] in fieldset(nl.Nodes, Id)))
-//@   invariant L0: (forall k string :: (k in nodeIndex) <==> (k in fieldset(nl.Nodes, Id))) && (forall k string :: (k in seenCache) ==> (seenCache[k].From in fieldset(nl.Nodes, Id)))
-//@   invariant L1: (forall k string :: (k in nodeIndex) <==> (k in fieldset(nl.Nodes, Id))) && (forall k string :: (k in seenCache) ==> (seenCache[k].From in fieldset(nl.Nodes, Id)))
-//@   invariant L2: (forall k string :: (k in seenCache) ==> (seenCache[k].From in fieldset(nl.Nodes, Id))) && (forall e *Edge :: (e in elems(newEdges)) ==> (e.From in fieldset(nl.Nodes, Id)) && len(e.To) > 0)
-//@   invariant L3: (forall k string :: (k in seenCache) ==> (seenCache[k].From in fieldset(nl.Nodes, Id))) && (forall e *Edge :: (e in elems(newEdges)) ==> (e.From in fieldset(nl.Nodes, Id)) && len(e.To) > 0)
+//@   invariant L0: [C08:inv] (forall k string :: (k in seenCache) ==> len(seenCache[k].To) == 0) && (forall k string, s string :: (k in newTos) && (s in newTos[k]) ==> (s in fieldset(nl.Nodes, Id)))
+//@   invariant L1: [C08:inv] (forall k string :: (k in seenCache) ==> len(seenCache[k].To) == 0) && (forall k string, s string :: (k in newTos) && (s in newTos[k]) ==> (s in fieldset(nl.Nodes, Id)))
+//@   invariant L2: [C08:inv] (forall k string, s string :: (k in newTos) && (s in newTos[k]) ==> (s in fieldset(nl.Nodes, Id)))
+//@   invariant L2: [C08:inv] forall k string :: (k in seenCache) ==> (forall j int :: 0 <= j && j < len(seenCache[k].To) ==> (seenCache[k].To[j] in fieldset(nl.Nodes, Id)))
+//@   invariant L2: [C08:inv] forall e *Edge :: (e in elems(newEdges)) ==> (forall j int :: 0 <= j && j < len(e.To) ==> (e.To[j] in fieldset(nl.Nodes, Id)))
+//@   invariant L3: [C08:inv] (forall k string, s string :: (k in newTos) && (s in newTos[k]) ==> (s in fieldset(nl.Nodes, Id)))
+//@   invariant L3: [C08:inv] forall k string :: (k in seenCache) ==> (forall j int :: 0 <= j && j < len(seenCache[k].To) ==> (seenCache[k].To[j] in fieldset(nl.Nodes, Id)))
+//@   invariant L3: [C08:inv] forall e *Edge :: (e in elems(newEdges)) ==> (forall j int :: 0 <= j && j < len(e.To) ==> (e.To[j] in fieldset(nl.Nodes, Id)))
+//@   invariant L0: [C08:inv] (forall k string :: (k in nodeIndex) <==> (k in fieldset(nl.Nodes, Id))) && (forall k string :: (k in seenCache) ==> (seenCache[k].From in fieldset(nl.Nodes, Id)))
+//@   invariant L1: [C08:inv] (forall k string :: (k in nodeIndex) <==> (k in fieldset(nl.Nodes, Id))) && (forall k string :: (k in seenCache) ==> (seenCache[k].From in fieldset(nl.Nodes, Id)))
+//@   invariant L2: [C08:inv] (forall k string :: (k in seenCache) ==> (seenCache[k].From in fieldset(nl.Nodes, Id))) && (forall e *Edge :: (e in elems(newEdges)) ==> (e.From in fieldset(nl.Nodes, Id)) && len(e.To) > 0)
+//@   invariant L3: [C08:inv] (forall k string :: (k in seenCache) ==> (seenCache[k].From in fieldset(nl.Nodes, Id))) && (forall e *Edge :: (e in elems(newEdges)) ==> (e.From in fieldset(nl.Nodes, Id)) && len(e.To) > 0)
 //@   invariant L2: fresh(arr(newEdges)) && (forall e *Edge :: (e in elems(newEdges)) ==> fresh(e) && (arr(e.To) == nil || fresh(arr(e.To)))) && (forall k string :: (k in seenCache) ==> seenCache[k] != nil && fresh(seenCache[k]) && (arr(seenCache[k].To) == nil || fresh(arr(seenCache[k].To))))
 //@   invariant L3: fresh(arr(newEdges)) && (forall e *Edge :: (e in elems(newEdges)) ==> fresh(e) && (arr(e.To) == nil || fresh(arr(e.To)))) && (forall k string :: (k in seenCache) ==> seenCache[k] != nil && fresh(seenCache[k]) && (arr(seenCache[k].To) == nil || fresh(arr(seenCache[k].To))))
 //@   invariant L0: forall k string :: (k in seenCache) ==> seenCache[k] != nil && fresh(seenCache[k]) && (arr(seenCache[k].To) == nil || fresh(arr(seenCache[k].To)))
@@ -519,12 +519,12 @@ package sbom
 //@   ensures [C08:remove:rootsClosed] closedRoots(nl)
 //@   ensures [C08:remove:edgesClosed] closedEdges(nl)
 //@   ensures [C08:remove:normalised] normalisedNL(nl)
-//@   invariant L0: forall x string :: (x in idDict) <==> (x in elemsn(ids, _i))
-//@   invariant L1: forall x string :: (x in idDict) <==> (x in elems(ids))
-//@   invariant L1: !(nil in elems(newNodeList))
-//@   invariant L1: forall y string :: (y in fieldset(newNodeList, Id)) <==> ((y in fieldsetn(nl.Nodes, Id, _i)) && !(y in elems(ids)))
-//@   invariant L2: (forall x string :: (x in idDict) <==> (x in elems(ids))) && !(nil in elems(newNodeList)) && (forall y string :: (y in fieldset(newNodeList, Id)) <==> ((y in fieldset(nl.Nodes, Id)) && !(y in elems(ids))))
-//@   invariant L2: forall r string :: (r in elems(newRootElements)) ==> ((r in elems(nl.RootElements)) && !(r in elems(ids)))
+//@   invariant L0: [C08:inv] forall x string :: (x in idDict) <==> (x in elemsn(ids, _i))
+//@   invariant L1: [C08:inv] forall x string :: (x in idDict) <==> (x in elems(ids))
+//@   invariant L1: [C08:inv] !(nil in elems(newNodeList))
+//@   invariant L1: [C08:inv] forall y string :: (y in fieldset(newNodeList, Id)) <==> ((y in fieldsetn(nl.Nodes, Id, _i)) && !(y in elems(ids)))
+//@   invariant L2: [C08:inv] (forall x string :: (x in idDict) <==> (x in elems(ids))) && !(nil in elems(newNodeList)) && (forall y string :: (y in fieldset(newNodeList, Id)) <==> ((y in fieldset(nl.Nodes, Id)) && !(y in elems(ids))))
+//@   invariant L2: [C08:inv] forall r string :: (r in elems(newRootElements)) ==> ((r in elems(nl.RootElements)) && !(r in elems(ids)))
 
 //@ pred uniqueIdx(nl *NodeList) = forall i int, j int :: 0 <= i && i < j && j < len(nl.Nodes) ==> nl.Nodes[i].Id != nl.Nodes[j].Id
 
@@ -541,26 +541,26 @@ package sbom
 //@   ensures [C09:add:roots] old(addSep(nl, nl2)) ==> (forall r string :: (r in elems(nl.RootElements)) <==> ((r in old(elems(nl.RootElements))) || (r in elems(nl2.RootElements))))
 //@   ensures [C09:add:keep:Version] forall i0 int :: 0 <= i0 && i0 < old(len(nl.Nodes)) && old(nl.Nodes[i0].Version) != "" ==> nl.Nodes[i0].Version == old(nl.Nodes[i0].Version)
 //@   ensures [C09:add:fill:Version] old(uniqueIdx(nl)) ==> (forall i0 int, j int :: 0 <= i0 && i0 < old(len(nl.Nodes)) && 0 <= j && j < len(nl2.Nodes) && nl2.Nodes[j].Id == nl.Nodes[i0].Id && nl.Nodes[i0].Version == "" ==> nl2.Nodes[j].Version == "")
-//@   invariant L0: forall i0 int :: 0 <= i0 && i0 < old(len(nl.Nodes)) && old(nl.Nodes[i0].Version) != "" ==> nl.Nodes[i0].Version == old(nl.Nodes[i0].Version)
-//@   invariant L0: old(uniqueIdx(nl)) ==> (forall i0 int :: 0 <= i0 && i0 < old(len(nl.Nodes)) ==> (nl.Nodes[i0].Id in existingNodes) && existingNodes[nl.Nodes[i0].Id] == nl.Nodes[i0])
-//@   invariant L0: old(uniqueIdx(nl)) ==> (forall i0 int, j int :: 0 <= i0 && i0 < old(len(nl.Nodes)) && 0 <= j && j < _i && nl2.Nodes[j].Id == nl.Nodes[i0].Id && nl.Nodes[i0].Version == "" ==> nl2.Nodes[j].Version == "")
-//@   invariant L0: nl2.Nodes == old(nl2.Nodes) && (forall j int :: 0 <= j && j < len(nl2.Nodes) ==> nl2.Nodes[j] == old(nl2.Nodes[j]))
-//@   invariant L0: len(nl.Nodes) >= old(len(nl.Nodes)) && (forall i0 int :: 0 <= i0 && i0 < old(len(nl.Nodes)) ==> nl.Nodes[i0] == old(nl.Nodes[i0]) && nl.Nodes[i0].Id == old(nl.Nodes[i0].Id))
-//@   invariant L1: len(nl.Nodes) >= old(len(nl.Nodes)) && (forall i0 int :: 0 <= i0 && i0 < old(len(nl.Nodes)) ==> nl.Nodes[i0] == old(nl.Nodes[i0]))
-//@   invariant L2: len(nl.Nodes) >= old(len(nl.Nodes)) && (forall i0 int :: 0 <= i0 && i0 < old(len(nl.Nodes)) ==> nl.Nodes[i0] == old(nl.Nodes[i0]))
+//@   invariant L0: [C09:inv] forall i0 int :: 0 <= i0 && i0 < old(len(nl.Nodes)) && old(nl.Nodes[i0].Version) != "" ==> nl.Nodes[i0].Version == old(nl.Nodes[i0].Version)
+//@   invariant L0: [C09:inv] old(uniqueIdx(nl)) ==> (forall i0 int :: 0 <= i0 && i0 < old(len(nl.Nodes)) ==> (nl.Nodes[i0].Id in existingNodes) && existingNodes[nl.Nodes[i0].Id] == nl.Nodes[i0])
+//@   invariant L0: [C09:inv] old(uniqueIdx(nl)) ==> (forall i0 int, j int :: 0 <= i0 && i0 < old(len(nl.Nodes)) && 0 <= j && j < _i && nl2.Nodes[j].Id == nl.Nodes[i0].Id && nl.Nodes[i0].Version == "" ==> nl2.Nodes[j].Version == "")
+//@   invariant L0: [C09:inv] nl2.Nodes == old(nl2.Nodes) && (forall j int :: 0 <= j && j < len(nl2.Nodes) ==> nl2.Nodes[j] == old(nl2.Nodes[j]))
+//@   invariant L0: [C09:inv] len(nl.Nodes) >= old(len(nl.Nodes)) && (forall i0 int :: 0 <= i0 && i0 < old(len(nl.Nodes)) ==> nl.Nodes[i0] == old(nl.Nodes[i0]) && nl.Nodes[i0].Id == old(nl.Nodes[i0].Id))
+//@   invariant L1: [C09:inv] len(nl.Nodes) >= old(len(nl.Nodes)) && (forall i0 int :: 0 <= i0 && i0 < old(len(nl.Nodes)) ==> nl.Nodes[i0] == old(nl.Nodes[i0]))
+//@   invariant L2: [C09:inv] len(nl.Nodes) >= old(len(nl.Nodes)) && (forall i0 int :: 0 <= i0 && i0 < old(len(nl.Nodes)) ==> nl.Nodes[i0] == old(nl.Nodes[i0]))
 //@   ensures [C08:add:edgesClosed] closedEdges(nl)
 //@   ensures [C08:add:normalised] normalisedNL(nl)
 //@   invariant L0: validNL(nl) && validNL(nl2)
-//@   invariant L0: existingNodes != nil && (forall k string :: (k in existingNodes) <==> (k in old(fieldset(nl.Nodes, Id)))) && (forall k string :: (k in existingNodes) ==> existingNodes[k] != nil && existingNodes[k].Id == k && (existingNodes[k] in old(elems(nl.Nodes))))
-//@   invariant L0: (forall x string :: (x in fieldset(nl.Nodes, Id)) <==> ((x in old(fieldset(nl.Nodes, Id))) || (x in fieldsetn(nl2.Nodes, Id, _i))))
-//@   invariant L0: old(addSep(nl, nl2)) ==> addSep(nl, nl2) && (forall r string :: (r in elems(nl.RootElements)) <==> (r in old(elems(nl.RootElements))))
+//@   invariant L0: [C09:inv] existingNodes != nil && (forall k string :: (k in existingNodes) <==> (k in old(fieldset(nl.Nodes, Id)))) && (forall k string :: (k in existingNodes) ==> existingNodes[k] != nil && existingNodes[k].Id == k && (existingNodes[k] in old(elems(nl.Nodes))))
+//@   invariant L0: [C09:inv] (forall x string :: (x in fieldset(nl.Nodes, Id)) <==> ((x in old(fieldset(nl.Nodes, Id))) || (x in fieldsetn(nl2.Nodes, Id, _i))))
+//@   invariant L0: [C09:inv] old(addSep(nl, nl2)) ==> addSep(nl, nl2) && (forall r string :: (r in elems(nl.RootElements)) <==> (r in old(elems(nl.RootElements))))
 //@   invariant L1: validNL(nl) && validNL(nl2)
-//@   invariant L1: old(addSep(nl, nl2)) ==> addSep(nl, nl2)
-//@   invariant L1: old(addSep(nl, nl2)) ==> (forall r string :: (r in elems(nl.RootElements)) <==> (r in old(elems(nl.RootElements))))
-//@   invariant L1: existingEdges != nil && (forall f string, t Edge_Type :: (f in existingEdges) && (t in existingEdges[f]) ==> len(existingEdges[f][t]) >= 1 && existingEdges[f][t][0] != nil && (existingEdges[f][t][0] in elems(nl.Edges)))
+//@   invariant L1: [C09:inv] old(addSep(nl, nl2)) ==> addSep(nl, nl2)
+//@   invariant L1: [C09:inv] old(addSep(nl, nl2)) ==> (forall r string :: (r in elems(nl.RootElements)) <==> (r in old(elems(nl.RootElements))))
+//@   invariant L1: [C09:inv] existingEdges != nil && (forall f string, t Edge_Type :: (f in existingEdges) && (t in existingEdges[f]) ==> len(existingEdges[f][t]) >= 1 && existingEdges[f][t][0] != nil && (existingEdges[f][t][0] in elems(nl.Edges)))
 //@   invariant L2: validNL(nl) && validNL(nl2)
-//@   invariant L2: old(addSep(nl, nl2)) ==> (forall r string :: (r in elems(nl.RootElements)) <==> ((r in old(elems(nl.RootElements))) || (r in elemsn(nl2.RootElements, _i))))
-//@   invariant L2: old(addSep(nl, nl2)) ==> (forall k string :: (k in rootElements) ==> (k in old(elems(nl.RootElements))))
+//@   invariant L2: [C09:inv] old(addSep(nl, nl2)) ==> (forall r string :: (r in elems(nl.RootElements)) <==> ((r in old(elems(nl.RootElements))) || (r in elemsn(nl2.RootElements, _i))))
+//@   invariant L2: [C09:inv] old(addSep(nl, nl2)) ==> (forall k string :: (k in rootElements) ==> (k in old(elems(nl.RootElements))))
 
 //@ func NodeList.RelateNodeListAtID
 //@   props C04, C08
@@ -568,6 +568,7 @@ package sbom
 //@   assigns nl.Nodes, nl.Edges, nl.RootElements, (nl.Edges)[*]
 //@   ensures [validNL] validNL(nl)
 //@   ensures [arrays] (arr(nl.Nodes) == old(arr(nl.Nodes)) || fresh(arr(nl.Nodes))) && (arr(nl.Edges) == old(arr(nl.Edges)) || fresh(arr(nl.Edges))) && nl.RootElements == old(nl.RootElements)
+//@   invariant L0: validNL(nl) && validNL(nl2) && nl2.Nodes == old(nl2.Nodes) && (arr(nl2.Nodes) == nil || arr(nl.Nodes) != arr(nl2.Nodes))
 //@   invariant L0: (arr(nl.Nodes) == old(arr(nl.Nodes)) || fresh(arr(nl.Nodes))) && (arr(nl.Edges) == old(arr(nl.Edges)) || fresh(arr(nl.Edges)))
 //@   invariant L1: validNL(nl) && validNL(nl2)
 //@   invariant L1: (arr(nl.Nodes) == old(arr(nl.Nodes)) || fresh(arr(nl.Nodes))) && (arr(nl.Edges) == old(arr(nl.Edges)) || fresh(arr(nl.Edges)))
